@@ -1,16 +1,15 @@
 (* Props/C22.v — C22 "Field splitting and quote removal match bash": property theorems only.
    Model: Expand/Fields.v (wordFields of the repaired code, fix: 3616507).
-   Scope of the main theorem (word_ok): no empty unquoted literal (the parser never
+   Scope of the main theorem (in_scope): no empty unquoted literal (the parser never
    yields one; brace expansion {,a} can, and there the Go code produces an extra
-   empty field: C22_empty_literal_refuted), and no unquoted $@ / $* when IFS is
-   empty (modelled and tied to the code, checked against bash by search, not proved). *)
+   empty field: C22_empty_literal_refuted).  Everything else is covered. *)
 From Verif Require Import Base.Str Expand.Fields Proofs.FieldsProofs.
 
 (* the full statement, for every IFS (unset, empty, white space, other, mixed,
    multi-byte: characters are code points) and every word in scope *)
-Theorem C22_fields_match_posix : forall oifs ps, word_ok oifs ps = true ->
+Theorem C22_fields_match_posix : forall oifs ps, in_scope ps = true ->
   word_fields oifs ps = spec_fields oifs ps.
-Proof. exact word_fields_spec. Qed.
+Proof. exact word_fields_spec_full. Qed.
 Print Assumptions C22_fields_match_posix.
 
 (* forall oifs ps, word_fields oifs ps = spec_fields oifs ps   does not hold: *)
@@ -61,6 +60,10 @@ Example C22_ex_mixed :
   word_ok (Some [32;58]) [PLit [112]; PExp [32;58;97;32;58;32;98]; PDbl []; PExp [32;99;58]] = true /\
   word_fields (Some [32;58]) [PLit [112]; PExp [32;58;97;32;58;32;98]; PDbl []; PExp [32;99;58]]
     = [[112];[97];[98];[99]].
+Proof. vm_compute. split; reflexivity. Qed.
+Example C22_ex_empty_ifs_list : (* IFS=; set -- "a b" "" c; $@ *)
+  in_scope [PUList [[97;32;98];[];[99]]] = true /\
+  word_fields (Some []) [PUList [[97;32;98];[];[99]]] = [[97;32;98];[99]].
 Proof. vm_compute. split; reflexivity. Qed.
 Example C22_ex_unset_ifs : word_fields None [PExp [32;97;9;10;98;32]] = [[97];[98]].
 Proof. vm_compute. reflexivity. Qed.
